@@ -104,6 +104,13 @@ def lookup_self(pending):
             def vc_getitem(self, e, k, node=None):
                 return self.value(k)
 
+            def vc_getattr(self, e, attr, node=None):
+                if attr == 'get':
+                    from pyvc.engine import BoundMethod
+                    return BoundMethod('get', lambda e2, a, kw: self.value(a[0]) if e2.branch(self.member(a[0].z)) else (a[1] if len(a) > 1 else None))
+                from pyvc.engine import Unsupported
+                raise Unsupported('Table.%s' % attr)
+
         class ByAlias:
             def __init__(self, t):
                 self.t = t
